@@ -5,10 +5,16 @@ MINIMISE_RUNS = 150
 
 DEFAULT = {
     "quick": dict(configs=["asan"], types="sdcz", shards=4, cases=6000, max_size=600, budget=40, min_nontrivial=50, alarm=120),
-    "thorough": dict(configs=["asan", "asan-vb", "asan-i64"], types="sdcz", shards=4, cases=40000, max_size=1500, budget=420, min_nontrivial=500, alarm=300),
+    "thorough": dict(configs=["asan"], types="sdcz", shards=4, cases=60000, max_size=1500, budget=420, min_nontrivial=500, alarm=300),
 }
 
+VB = ["asan", "asan-vb"]
+I64 = ["asan", "asan-i64"]
+ALL3 = ["asan", "asan-vb", "asan-i64"]
 OVERRIDE = {
+    "C01": {"thorough": dict(configs=ALL3)}, "C02": {"thorough": dict(configs=ALL3)}, "C03": {"thorough": dict(configs=ALL3)},
+    "C05": {"thorough": dict(configs=VB)}, "C12": {"thorough": dict(configs=VB)}, "C13": {"thorough": dict(configs=VB)}, "C14": {"thorough": dict(configs=VB)},
+    "C07": {"thorough": dict(configs=I64)}, "C17": {"thorough": dict(configs=I64)}, "C19": {"thorough": dict(configs=I64)}, "C06": {"thorough": dict(configs=VB)}, "C15": {"thorough": dict(configs=I64)},
     "C09": {"quick": dict(types="d", shards=6, configs=["tsan", "asan"], cases=1500, budget=45), "thorough": dict(types="d", shards=8, configs=["tsan", "asan"], cases=20000, budget=600)},
     "C08": {"quick": dict(cases=1500, budget=50), "thorough": dict(cases=20000, budget=600, configs=["asan", "asan-i64"])},
     "C10": {"quick": dict(types="d", shards=16), "thorough": dict(types="d", shards=8, configs=["asan", "asan-i64"])},
